@@ -174,7 +174,7 @@ SHAPES = [
 SHAPE_BY_NAME = {s["name"]: s for s in SHAPES}
 
 SOURCELESS = ["exec-string", "missing-file", "eval", "deleted-after-load", "truncated-after-load", "shortened-after-load",
-              "untokenizable-after-load", "not-python-after-load"]
+              "untokenizable-after-load", "not-python-after-load", "bad-dedent-after-load", "tabs-after-load"]
 
 
 def make_case(shape, pre, post, exc, msg, depth=1, kind="file", crlf=False):
@@ -210,7 +210,7 @@ def produce(case, root):
     text = case["text"]
     path = os.path.join(root, "gen_%d.py" % n)
     has_file = kind in ("file", "deleted-after-load", "truncated-after-load", "shortened-after-load", "ignored-middle",
-                        "untokenizable-after-load", "not-python-after-load")
+                        "untokenizable-after-load", "not-python-after-load", "bad-dedent-after-load", "tabs-after-load")
     if has_file:
         with open(path, "w", encoding="utf-8", newline="") as f:
             f.write(text)
@@ -263,6 +263,14 @@ def produce(case, root):
     elif kind == "not-python-after-load":
         with open(path, "w") as f:
             f.write("  this is {not python (at all\n\tmixed\n   indentation ]\n")
+    elif kind == "bad-dedent-after-load":
+        # a dedent to a column that matches no outer level: the tokenizer itself raises IndentationError
+        with open(path, "w") as f:
+            f.write("def fail(exc, msg):\n        a = 1\n    raise exc(msg)\n")
+    elif kind == "tabs-after-load":
+        # tabs and blanks mixed inconsistently: TabError
+        with open(path, "w") as f:
+            f.write("def fail(exc, msg):\n    if msg:\n        a = 1\n\tb = 2\n    raise exc(msg)\n")
     return caught, info
 
 
@@ -598,7 +606,8 @@ class _Failer:
 
 
 def case_class(case):
-    if case["kind"] in ("shortened-after-load", "untokenizable-after-load", "not-python-after-load"):
+    if case["kind"] in ("shortened-after-load", "untokenizable-after-load", "not-python-after-load", "bad-dedent-after-load",
+                        "tabs-after-load"):
         return "source-changed-after-load"
     if case["kind"] != "file":
         return "source-less"
